@@ -13,6 +13,8 @@ import (
 const wrPkg = "transport/webrtc"
 
 func c26(c *an.Check) {
+	// signals are decrypted by the public-key decryption chain: arbitrary payload bytes reach it
+	peerEncryptTotality(c, "webrtc signal decryption chain totality")
 	p := c.P
 	// ---- ROLE: the offerer predicate is a strict order on (local, remote) in one encoding
 	iso := one(pkgFuncsWhere(p, wrPkg, func(f *ssa.Function) bool {
